@@ -263,6 +263,20 @@ def check_self(case, stats: Stats) -> None:
         else:
             if bad:
                 raise Violation(f"{how}: accepted a record listing its own canonical prefix / URI prefix among its synonyms")
+    # the same rule through the priority-map loader (first element = canonical URI prefix, rest = its synonyms)
+    plist = [case["uri_prefix"], *case["uri_prefix_synonyms"]]
+    bad_uri = case["uri_prefix"] in case["uri_prefix_synonyms"]
+    try:
+        c = Converter.from_priority_prefix_map({case["prefix"]: plist})
+    except ValueError:
+        if not bad_uri:
+            raise Violation(f"from_priority_prefix_map rejected {plist!r} although the first URI prefix is not repeated")
+    else:
+        if bad_uri:
+            raise Violation(f"from_priority_prefix_map accepted {plist!r}: the record lists its own canonical URI prefix among its synonyms")
+        r = c.records[0]
+        if r.uri_prefix in r.uri_prefix_synonyms or r.prefix in r.prefix_synonyms:
+            raise Violation("from_priority_prefix_map produced a record listing its own canonical value among its synonyms")
     if bad:
         stats.nontrivial({k: case[k] for k in ("prefix", "uri_prefix", "prefix_synonyms", "uri_prefix_synonyms")}, "self-synonym-" + case["side"])
     else:
